@@ -165,10 +165,16 @@ class SrcGen:
             n = "n%d" % rid
             self.emit(ind, "%s = 0" % n)
             self.emit(ind, "__enter(%d, 'block', %d, _)" % (rid, conj(eff, v)))
-            self.emit(ind, "while _while(%s, ctx=_) and %s < %d:" % (c, n, r.randint(1, 2)))
+            pub_break = r.random() < 0.3
+            self.emit(ind, "while _while(%s, ctx=_) and %s < %d:" % (c, n, 1 if pub_break else r.randint(1, 2)))
             self.emit(ind + 1, "%s += 1" % n)
             self.emit(ind + 1, "__inside(%d, %d)" % (rid, conj(eff, v)))
             self.body(ind + 1, depth, conj(eff, v), True)
+            if pub_break:
+                # a break on a public condition: everything after it in the loop is dead
+                self.emit(ind + 1, "_breakif(%s, ctx=_)" % r.choice(["1", "True", "%s >= 1" % n]))
+                self.emit(ind + 1, "__inside(%d, 0)" % rid)
+                self.simple(ind + 1, 0, True)
             self.emit(ind, "try:")
             self.emit(ind + 1, "_endwhile(ctx=_)")
             self.emit(ind, "finally:")
